@@ -1435,6 +1435,10 @@ class Node:
             del self.connections[conn.ident]
         if conn.ident in self.peer_sockets:
             del self.peer_sockets[conn.ident]
+        if conn.ident in self._half_ready_connections:
+            del self._half_ready_connections[conn.ident]
+        if self.socket_peers.get(conn.socket_fileno) is conn:
+            del self.socket_peers[conn.socket_fileno]
         peer = self._find_connection_peer(conn)
         if peer and peer.connection is conn:
             # fall back on another live connection of the same peer, if the
